@@ -271,3 +271,71 @@ Proof.
   intros H. unfold exec. pose proof (run_trace_reads nofail R p H (w0 m) (Forall_nil _)) as F.
   destruct (run nofail p (w0 m)) as [a w]. cbn in *. apply Forall_rev. exact F.
 Qed.
+
+(* ---------- return-value and handler-sequence specifications (syntactic) ---------- *)
+Fixpoint rets {A} (Q : A -> Prop) (p : prog A) : Prop :=
+  match p with
+  | Ret a => Q a
+  | Load _ _ k => forall v, rets Q (k v)
+  | Store _ _ _ k | Fill _ _ _ k | Move _ _ _ k | Handler _ _ k | Free _ k | Static _ k => rets Q k
+  | Alloc _ k => forall r, rets Q (k r)
+  end.
+
+(* hspec post acc p : on every path of p (for all loaded values), if hs are the handler
+   invocations performed so far (acc) followed by those of p, and a the result, post hs a *)
+Fixpoint hspec {A} (post : list (hkind * Z) -> A -> Prop) (acc : list (hkind * Z)) (p : prog A) : Prop :=
+  match p with
+  | Ret a => post acc a
+  | Load _ _ k => forall v, hspec post acc (k v)
+  | Store _ _ _ k | Fill _ _ _ k | Move _ _ _ k | Free _ k | Static _ k => hspec post acc k
+  | Handler hk c k => hspec post (acc ++ [(hk, c)]) k
+  | Alloc _ k => forall r, hspec post acc (k r)
+  end.
+
+Lemma rets_weaken {A} (Q Q' : A -> Prop) (p : prog A) : (forall a, Q a -> Q' a) -> rets Q p -> rets Q' p.
+Proof. intros HQ. induction p; cbn; auto. Qed.
+Lemma rets_bind {A B} (Q : A -> Prop) (Q' : B -> Prop) (p : prog A) (f : A -> prog B) :
+  rets Q p -> (forall a, Q a -> rets Q' (f a)) -> rets Q' (bind p f).
+Proof. intros Hp Hf. induction p; cbn in *; auto. Qed.
+Lemma writes_in_bind_rets {A B} P (Q : A -> Prop) (p : prog A) (f : A -> prog B) :
+  writes_in P p -> rets Q p -> (forall a, Q a -> writes_in P (f a)) -> writes_in P (bind p f).
+Proof. intros Hp Hq Hf. induction p; cbn in *; auto; try (destruct Hp; split; auto). Qed.
+Lemma reads_in_bind_rets {A B} P (Q : A -> Prop) (p : prog A) (f : A -> prog B) :
+  reads_in P p -> rets Q p -> (forall a, Q a -> reads_in P (f a)) -> reads_in P (bind p f).
+Proof. intros Hp Hq Hf. induction p; cbn in *; auto; try (destruct Hp as [? Hp]; split; auto). Qed.
+Lemma hspec_weaken {A} (post post' : list (hkind * Z) -> A -> Prop) (p : prog A) :
+  (forall hs a, post hs a -> post' hs a) -> forall acc, hspec post acc p -> hspec post' acc p.
+Proof. intros H. induction p; cbn; auto. Qed.
+Lemma hspec_bind {A B} (post : list (hkind * Z) -> B -> Prop) (p : prog A) (f : A -> prog B) :
+  forall acc, hspec (fun acc' a => hspec post acc' (f a)) acc p -> hspec post acc (bind p f).
+Proof. induction p; cbn; auto. Qed.
+
+Lemma handlers_app t1 t2 : handlers (t1 ++ t2) = handlers t1 ++ handlers t2.
+Proof. unfold handlers. apply flat_map_app. Qed.
+
+Section HspecSound.
+  Variable fail : nat -> bool.
+  Lemma hspec_run {A} (post : list (hkind * Z) -> A -> Prop) (p : prog A) :
+    forall st, hspec post (handlers (rev (wtr st))) p ->
+    let '(a, st') := run fail p st in post (handlers (rev (wtr st'))) a.
+  Proof.
+    induction p; cbn; intros st Hs; auto.
+    - apply H. cbn. rewrite handlers_app. cbn. rewrite app_nil_r. apply Hs.
+    - apply IHp. cbn. rewrite handlers_app. cbn. rewrite app_nil_r. apply Hs.
+    - apply IHp. cbn. rewrite handlers_app. cbn. rewrite app_nil_r. apply Hs.
+    - apply IHp. cbn. rewrite !handlers_app. cbn. rewrite !app_nil_r. apply Hs.
+    - apply IHp. cbn. rewrite handlers_app. cbn. apply Hs.
+    - destruct (fail (wn st)); apply H; cbn; rewrite handlers_app; cbn; rewrite app_nil_r; apply Hs.
+    - apply IHp. cbn. rewrite handlers_app. cbn. rewrite app_nil_r. apply Hs.
+    - apply IHp. cbn. rewrite handlers_app. cbn. rewrite app_nil_r. apply Hs.
+  Qed.
+  Lemma rets_run {A} (Q : A -> Prop) (p : prog A) : rets Q p -> forall st, Q (fst (run fail p st)).
+  Proof. induction p; cbn; intros Hr st; auto. destruct (fail (wn st)); auto. Qed.
+End HspecSound.
+
+Lemma exec_hspec {A} (post : list (hkind * Z) -> A -> Prop) (p : prog A) m :
+  hspec post [] p -> let '(a, _, tr) := exec p m in post (handlers tr) a.
+Proof.
+  intros H. unfold exec. pose proof (hspec_run nofail post p (w0 m) H) as F.
+  destruct (run nofail p (w0 m)) as [a st]. exact F.
+Qed.
